@@ -16,7 +16,8 @@ PROP = dict(
                            "monitor:trees-equal:canonical": 50000, "monitor:trees-equal:compact": 50000,
                            "monitor:trees-equal:noisy": 50000, "monitor:values-compared": 500000,
                            "monitor:names-compared": 500000, "tree:depth>=3": 5000,
-                           "tree:with-value-250..260": 10000, "tree:with-name-250..260": 3000,
+                           "tree:with-value-250..254": 4000, "tree:with-value-255..260": 4000, "tree:with-value-65530..65540": 800,
+                           "tree:with-name-250..260": 3000,
                            "decoration:comments": 50000, "decoration:blank-lines": 50000, "decoration:trailing-comments": 5000})],
         rule=("case = (format string, section/option name flag sets, generated tree of sections, options and anonymous data); the tree is "
               "rendered canonically, compactly and with random decoration and each text is parsed into an empty root; non-trivial = "
